@@ -22,7 +22,8 @@ def one_history(h):
     d = C.workdir('C17', 'h%d' % h['i'])
     try:
         listen = 'unix:%s/t.sock' % d if h['listener'] == 'unix' else '127.0.0.1:%d' % T.free_port()
-        t = T.Tacd(d, listen, h['domain'], h['proof'])
+        # descriptor-shortage histories run the responder under a small RLIMIT_NOFILE (what ~1000 clients do to a default one)
+        t = T.Tacd(d, listen, h['domain'], h['proof'], nofile=64 if any(b.startswith('fdflood') for b in h['seq']) else None)
         res = {'history': h, 'problems': [], 'executed': []}
         try:
             if not t.wait_ready():
@@ -32,8 +33,11 @@ def one_history(h):
             steps = []
             for b in h['seq']:
                 if b.startswith('slow'):
-                    # a few connections that stay open and silent (or stuck mid-record) for several seconds
-                    steps.append({'do': 'stall', 'count': 4, 'hold_ms': int(float(b[4:] or 6.5) * 1000), 'valid_meanwhile': True})
+                    # a dozen connections that stay open and silent (or stuck mid-record) for several seconds
+                    steps.append({'do': 'stall', 'count': 12, 'hold_ms': int(float(b[4:] or 6.5) * 1000), 'valid_meanwhile': True})
+                elif b.startswith('fdflood'):
+                    # more simultaneous clients than the responder has descriptors, held for a while: accept() itself fails meanwhile
+                    steps.append({'do': 'stall', 'count': 100, 'hold_ms': int(float(b[7:]) * 1000), 'valid_meanwhile': False})
                 else:
                     steps.append({'do': b, 'count': 50, 'hold_ms': 120})
             steps.append({'do': 'valid', 'connect_tries': 3})
@@ -43,6 +47,8 @@ def one_history(h):
             res['executed'] = [s.get('do') for s in st[:-1] if s.get('connected')]
             if any(b.startswith('slow') for b in h['seq']):
                 res['slow'] = True
+            if any(b.startswith('fdflood') for b in h['seq']):
+                res['fdflood'] = True
             # the stalled-connections behaviour embeds a valid handshake made while the others hang
             for s in st[:-1]:
                 if s.get('do') == 'stall' and s.get('connected') and s.get('meanwhile') is not None:
@@ -80,10 +86,14 @@ def gen_histories(tier):
         seqs += longer
         exhaustive = True
     # slow clients: longer than any plausible per-connection timeout a responder might use (3 s, 5 s, 10 s, 30 s)
-    slow = [('slow6.5',), ('slow6.5', 'http'), ('garbage', 'slow6.5'), ('slow6.5', 'slow6.5')]
+    slow = [('slow6.5',), ('slow6.5', 'http'), ('garbage', 'slow6.5'), ('slow6.5', 'slow6.5'), ('slow12',), ('slow12', 'hello_abandon')]
     if tier != 'quick':
-        slow += [('slow12',), ('tls_foreign_alpn', 'slow12'), ('slow35',), ('slow35', 'connect_close')]
+        slow += [('tls_foreign_alpn', 'slow12'), ('slow35',), ('slow35', 'connect_close'), ('slow12', 'slow12')]
     seqs += slow
+    # descriptor shortages, repeated
+    seqs += [('fdflood6', 'fdflood6'), ('fdflood2',), ('fdflood3', 'fdflood3', 'fdflood3'), ('fdflood6', 'fdflood6')]
+    if tier != 'quick':
+        seqs += [('fdflood6', 'http', 'fdflood6'), ('fdflood10', 'fdflood0.3', 'fdflood5'), ('tls_foreign_alpn', 'fdflood6', 'fdflood1', 'fdflood6')]
     # the extra behaviours alone, twice, and combined with every catalogue entry in both orders
     for e in EXTRA:
         seqs += [(e,), (e, e)] + [(e, c) for c in CATALOGUE] + [(c, e) for c in CATALOGUE]
@@ -122,6 +132,8 @@ def run(tier):
         chk.count('histories_len_%d' % len(h['seq']))
         if res.get('slow'):
             chk.count('histories_with_slow_clients')
+        if res.get('fdflood'):
+            chk.count('histories_with_descriptor_shortage')
         if len(res['executed']) == len(h['seq']) or res['problems']:
             chk.distinct.add((tuple(h['seq']), h['listener']))
         if res['problems']:
@@ -132,7 +144,7 @@ def run(tier):
     chk.exhaustive = exhaustive
     chk.rule = ('ordered selections of <= 4 behaviours from the 7-entry catalogue (all of length <= 2%s), each against a fresh '
                 'shipped-profile tacd, followed by a valid handshake; distinct = (history, listener) whose hostile '
-                'connections were all actually played; plus slow clients, abortive closes and odd server names alone and paired with every entry' % (' plus all of length 3 and 4' if exhaustive else ' plus 150 random of length 3-4'))
+                'connections were all actually played; plus slow clients (12 connections silent for 6.5-35 s), descriptor shortages (100 clients against a responder limited to 64 descriptors), abortive closes and odd server names alone and paired with every entry' % (' plus all of length 3 and 4' if exhaustive else ' plus 150 random of length 3-4'))
     chk.assumptions = ['tacd binary built with the repository release profile (panic=abort)']
     return chk.finish()
 
